@@ -15,6 +15,7 @@ import (
 )
 
 var (
+	errHeadersNotSupported   = errors.New("kafka-go: the broker only supports message format 1, which cannot carry record headers")
 	errInvalidWriteTopic     = errors.New("writes must NOT set Topic on kafka.Message")
 	errInvalidWritePartition = errors.New("writes must NOT set Partition on kafka.Message")
 )
@@ -1191,6 +1192,17 @@ func (c *Conn) writeCompressedMessages(codec CompressionCodec, msgs ...Message) 
 	var produceVersion apiVersion
 	if produceVersion, err = c.negotiateVersion(produce, v2, v3, v7); err != nil {
 		return
+	}
+
+	if produceVersion < v3 {
+		// produce v2 carries message sets of format 1, which has no place for
+		// record headers: refuse instead of dropping them silently.
+		for i := range msgs {
+			if len(msgs[i].Headers) != 0 {
+				err = errHeadersNotSupported
+				return
+			}
+		}
 	}
 
 	err = c.writeOperation(
